@@ -81,6 +81,12 @@ func monC08(w *World) {
 					w.probe("c08-badly-signed-timeout")
 					return
 				}
+				if _, ok := e.SyncInfo.QC(); !ok {
+					// with aggregate QCs a timeout message is a signed statement about the sender's high QC: one that
+					// names none is not a timeout message of this mode (honest replicas always attach theirs)
+					w.probe("c08-timeout-without-qc")
+					return
+				}
 			}
 			add(nd, s, e.View, e.ID)
 		case hotstuff.NewViewMsg:
